@@ -44,7 +44,8 @@ def tasks(tier, seed):
         for i in sorted({0, n // 2, n - 1}):
             add("null", n, player=i)
     # state shared between calls with different player counts: a bigger (or smaller) game evaluated FIRST in the same interpreter
-    pairs = [(7, 4), (6, 3), (5, 4), (4, 5), (3, 6), (8, 5), (5, 2), (9, 6)] + ([(10, 7), (7, 6), (6, 7), (10, 3)] if tier == "thorough" else [])
+    # ... or ANOTHER game of the same player count (a memo keyed by the size alone would hand its numbers to the second game)
+    pairs = [(7, 4), (6, 3), (5, 4), (4, 5), (3, 6), (8, 5), (5, 2), (9, 6), (3, 3), (4, 4), (5, 5), (6, 6)] + ([(10, 7), (7, 6), (6, 7), (10, 3), (7, 7)] if tier == "thorough" else [])
     for first, n in pairs:
         add("after-other-size", n, first=first)
     for n in range(2, (5 if tier == "thorough" else 4) + 1):
